@@ -106,7 +106,9 @@ class CGraph:
             if x0 is not None and id(f) not in independents and f.func == Function.Id \
                     and isinstance(f.x, type(x0)) and numpy.shape(f.x) == numpy.shape(x0) \
                     and (not isinstance(x0, algopy.UTPM) or f.x.data.shape == x0.data.shape):
-                f.x[...] = x0
+                # a fresh array (not written in place: the array of the previous evaluation may
+                # have been handed out as its result, or be the caller's own constant)
+                f.x = x0.copy()
 
         # populate independent arguments with new values
         for nf,f in enumerate(self.independentFunctionList):
